@@ -19,7 +19,14 @@ func drawC04(rt *rapid.T) *Case {
 	g := gen.NewG(rt, gen.PathOpts{Funcs: true, RootOmit: true, FuncPct: 20, OperandFuncPct: 15, FilterHeavy: true})
 	p := g.Path()
 	r := gen.Render(p, gen.Canon)
-	return &Case{Path: r.Text, AST: p, Doc: g.Doc(p), UseNumber: rapid.Bool().Draw(rt, "usenumber"), Funcs: true, Accessor: gen.Uniform(rt, "accessor", 3) == 0}
+	c := &Case{Path: r.Text, AST: p, Doc: g.Doc(p), UseNumber: rapid.Bool().Draw(rt, "usenumber"), Funcs: true, Accessor: gen.Uniform(rt, "accessor", 3) == 0}
+	if gen.Uniform(rt, "shared", 5) == 0 {
+		c.Ints = []int{1 + int(rapid.Uint32().Draw(rt, "shareseed"))}
+	}
+	if gen.Uniform(rt, "opaque", 8) == 0 {
+		c.Doc = g.Opaquify(c.Doc) // values that are not decoded JSON must not be rewritten either
+	}
+	return c
 }
 
 // header identifies a container's storage.
@@ -152,6 +159,15 @@ func checkC04(c *Case, st *Stats) string {
 	docText := c.Doc.JSON()
 	Journal(c.Check, c.Path, docText, flagString(c))
 	doc := c.Document()
+	if len(c.Ints) > 0 {
+		if c.Ints[0]%2 == 0 {
+			doc = gen.ShareSubtrees(doc, uint64(c.Ints[0]))
+			st.Class("doc:shared-subtree")
+		} else {
+			doc = gen.OverlapSlices(doc, uint64(c.Ints[0]))
+			st.Class("doc:overlapping-slices")
+		}
+	}
 	snap := takeSnapshot(doc)
 	lib := evalLibrary(c, doc, c.Accessor)
 	st.Eval(1)
